@@ -108,6 +108,53 @@ theorem truncate_fits (U : Uni) (ts : List Tok) (hwf : ∀ t ∈ ts, t.WF) (dw :
     rw [h2.1] at this
     simp [truncate, this, joinTexts_chunks, h2.2, hfit]
 
+/-- Since fix d6cf9d0 (the `debug_assert!` no longer stands in front of the fallback:
+`Generated.truncAssertsWideCluster = false`, read from the source on every run) the grapheme loop of
+`truncate_str_impl` has no panic point, whatever the Unicode oracle says about widths. -/
+theorem takeGraphemes_total (hno : Generated.truncAssertsWideCluster = false) (U : Uni) (dw : Nat)
+    (fill : Option Bytes) (gs : List Bytes) : ∀ used acc, ∃ r, takeGraphemes U dw fill gs used acc = .ok r := by
+  induction gs with
+  | nil => intro used acc; exact ⟨_, rfl⟩
+  | cons g gs ih =>
+    intro used acc
+    simp only [takeGraphemes, hno]
+    split
+    · cases fill with
+      | none => exact ⟨_, rfl⟩
+      | some c =>
+        simp only
+        split
+        · exact ⟨_, rfl⟩
+        · split
+          · exact ⟨_, rfl⟩
+          · exact ⟨_, rfl⟩
+    · exact ih _ _
+
+/-- … and neither has the loop over the elements of the line. -/
+theorem truncItems_total (hno : Generated.truncAssertsWideCluster = false) (U : Uni) (dw : Nat)
+    (fill : Option Bytes) (its : List (Bytes × Bool)) :
+    ∀ used acc cut, ∃ r, truncItems U dw fill its used acc cut = .ok r := by
+  induction its with
+  | nil => intro used acc cut; exact ⟨_, rfl⟩
+  | cons it r ih =>
+    intro used acc cut
+    obtain ⟨t, ansi⟩ := it
+    simp only [truncItems]
+    split
+    · exact ih _ _ _
+    · split
+      · exact ih _ _ _
+      · obtain ⟨⟨u, a, c⟩, hr⟩ := takeGraphemes_total hno U dw fill (U.graphemes t) used acc
+        rw [hr]
+        exact ih _ _ _
+
+/-- what the fallback pushes: the fill character `n` times -/
+theorem pushFill_eq (c : Bytes) (n : Nat) (acc : Bytes) :
+    pushFill c n acc = acc ++ (List.replicate n c).flatten := by
+  induction n generalizing acc with
+  | zero => simp [pushFill]
+  | succ n ih => rw [pushFill, ih, List.replicate_succ]; simp
+
 /-- A small concrete Unicode oracle for witnesses: clusters = UTF-8 characters; ASCII and 2-byte
 characters have width 1, 3- and 4-byte characters width 2. -/
 def demoChars : Nat → Bytes → List Bytes
@@ -122,5 +169,10 @@ def demoWidth : Bytes → Nat
   | b :: bs => (if b.toNat < 0x80 then 1 else if b.toNat < 0xC0 then 0 else if b.toNat < 0xE0 then 1 else 2) + demoWidth bs
 
 def demoUni : Uni := { width := demoWidth, graphemes := fun t => demoChars t.length t }
+
+/-- An oracle with a three-column cluster: a text is its first byte (one column) and the rest (one cluster, one column
+more than it has bytes: three columns when it is two bytes long). -/
+def wideUni : Uni :=
+  { width := fun t => if t.length ≤ 1 then t.length else t.length + 1, graphemes := fun t => [t.take 1, t.drop 1] }
 
 end Ansi
